@@ -75,7 +75,15 @@ def main():
             driver.available = False
         ctx = Ctx(prop, args.tier, seed, driver)
         out = Outcome()
-        mod.run(ctx, out, args.tier)
+        budget = args.tier
+        from harness import fingerprint
+        anchors_changed = args.tier == "quick" and fingerprint.changed(prop)
+        if anchors_changed:
+            # the anchored source differs from the tree the fingerprints were recorded on: never a finding by itself,
+            # the quick tier just looks harder
+            log(f"[{prop}] anchored source changed: running the search budget")
+            budget = "search"
+        mod.run(ctx, out, budget)
         findings = common.load_findings(prop)
 
         # witnesses of recorded findings
@@ -100,7 +108,7 @@ def main():
                 out.count("known-finding:" + fid)
 
         escalated = None
-        if not unknown and (not gate.ok or out.disagreements) and args.tier == "quick":
+        if not unknown and (not gate.ok or out.disagreements) and args.tier == "quick" and not anchors_changed:
             # a gate broke: search harder for a concrete failing input before reporting
             log(f"[{prop}] gate broken (proof_ok={gate.ok}, disagreements={len(out.disagreements)}): searching at thorough budget")
             escalated = Outcome()
@@ -143,6 +151,8 @@ def main():
             rc = 1
 
         extra = {}
+        if anchors_changed:
+            extra["anchor_fingerprint_changed"] = True
         if escalated is not None:
             extra["escalated_search_evaluations"] = escalated.evaluations
         common.write_evidence(prop, args.tier, seed, gate, out, time.time() - t0, violations, mod.ASSUMPTIONS, extra)
